@@ -1,7 +1,7 @@
 (* C08 — property theorems only.  Each is closed by [exact] of a lemma proved in C08/Proofs*.v
    and followed by Print Assumptions.  Constants, the footprint macro and the memory orders are
    those re-extracted from the code on this run (gen/Params_C08.v). *)
-From MV Require Import C08.Model C08.ModelConc C08.ProofsSeq C08.ProofsDrain C08.ProofsConc C08.ProofsConcInv gen.Params_C08.
+From MV Require Import Lib.Leaf C08.Model C08.ModelConc C08.ProofsSeq C08.ProofsDrain C08.ProofsConc C08.ProofsConcInv C08.ProofsGen gen.Params_C08.
 Local Open Scope Z_scope.
 
 (* tie of the literals used by the model to the headers: cache line size, header layout, and the
@@ -145,3 +145,70 @@ Theorem shm_reader_only_frame : forall P sched s, (forall tc, In tc sched -> fst
     Forall (fun d => exists ln, d = (ln, c_hN s ln, c_body s ln)) extra.
 Proof. intros P sched s H. exact (reader_only_frame P sched s H). Qed.
 Print Assumptions shm_reader_only_frame.
+
+(* ------------------------------------------------------------------ second tie (translator) *)
+(* The integer content of six functions of shm_ring_buffer.c is sliced out of the C text of THIS run
+   (lib/props/c08_slice.py: atomics -> field reads / writes, header pointers -> line indices into the
+   word arrays hN / hC, file-local helpers inlined) and translated by lib/leaftrans.py into the gen_
+   definitions of gen/Params_C08.v.  Each obligation says: on the whole domain of the ring (1 <= n < 2^31,
+   cursors inside the ring, cached_remain a uint32, request < 2^31) the generated function equals the
+   reference function, and the model's function (C08/Model.v) equals the same reference.  The
+   generated side is decided by a tactic that does not look at the shape of the C text. *)
+Theorem gen_update_cached_remain_matches_model :
+  (forall cr hC hN n r w req, dom n w r cr -> 0 <= req < 2147483648 ->
+     gen_update_cached_remain cr hC hN n r w req = ref_update_full cr hC hN n r w req) /\
+  (forall s req, sdom s -> 0 <= req < 2147483648 ->
+     update_cached_remain s req =
+     let '(c', w', wr) := ref_update (n_cl s) (wcur s) (rcur s) (Model.crem s) req in
+     {| n_cl := n_cl s; wcur := w'; rcur := rcur s; Model.crem := c'; w_hdr := w_hdr s; r_hdr := r_hdr s;
+        mem := if wr then set_hdr (mem s) (wcur s) 0 0 else mem s |}).
+Proof. exact (conj gen_update_ref model_update_ref). Qed.
+Print Assumptions gen_update_cached_remain_matches_model.
+
+Theorem gen_w_alloc_cachelines_matches_model :
+  (forall cr hC hN n r whl w nb nc, dom n w r cr -> 0 <= nc < 2147483648 ->
+     gen_w_alloc_cachelines cr hC hN n r whl w nb nc = ref_alloc cr hC hN n r whl w nb nc) /\
+  (forall s nb nc, sdom s -> 0 <= nc < 2147483648 ->
+     w_alloc_cachelines s nb nc =
+     let '(c1, w1, wr) := if Model.crem s <? nc then ref_update (n_cl s) (wcur s) (rcur s) (Model.crem s) nc
+                          else (Model.crem s, wcur s, false) in
+     let m1 := if wr then set_hdr (mem s) (wcur s) 0 0 else mem s in
+     if c1 <? nc then
+       ({| n_cl := n_cl s; wcur := w1; rcur := rcur s; Model.crem := c1; w_hdr := w_hdr s; r_hdr := r_hdr s; mem := m1 |}, None)
+     else
+       ({| n_cl := n_cl s; wcur := w1; rcur := rcur s; Model.crem := c1; w_hdr := w1; r_hdr := r_hdr s;
+           mem := set_hdr m1 w1 nb nc |}, Some (CL * w1 + HDR))).
+Proof. exact (conj gen_alloc_ref model_alloc_ref). Qed.
+Print Assumptions gen_w_alloc_cachelines_matches_model.
+
+(* w_alloc_bytes = w_alloc_cachelines with the footprint MUGGLE_SHM_RINGBUF_CAL_BYTES_CACHELINE(n_bytes),
+   as the C text computes it (sizeof, round-up mask, division), for every length below 2^31 *)
+Theorem gen_w_alloc_bytes_matches_model :
+  forall cr hC hN n r whl w nb, dom n w r cr -> 0 <= nb < 2147483648 ->
+    gen_w_alloc_bytes cr hC hN n r whl w nb = ref_alloc cr hC hN n r whl w nb (cal_cachelines nb).
+Proof. exact gen_alloc_bytes_ref. Qed.
+Print Assumptions gen_w_alloc_bytes_matches_model.
+
+Theorem gen_w_move_matches_model :
+  (forall cr hC whl w, gen_w_move cr hC whl w = ref_w_move cr (lget hC whl) w) /\
+  (forall s, w_move s =
+     let '(c', w') := ref_w_move (Model.crem s) (hdr_ncl (mem s) (w_hdr s)) (wcur s) in
+     {| n_cl := n_cl s; wcur := w'; rcur := rcur s; Model.crem := c'; w_hdr := w_hdr s; r_hdr := r_hdr s; mem := mem s |}).
+Proof. exact (conj gen_w_move_ref model_w_move_ref). Qed.
+Print Assumptions gen_w_move_matches_model.
+
+Theorem gen_r_fetch_matches_model :
+  (forall hN out rhl r w, 0 <= r < 4294967296 ->
+     gen_r_fetch hN out rhl r w = ref_fetch (lget hN r) (lget hN 0) out rhl r w) /\
+  (forall s out, 0 <= rcur s ->
+     r_fetch s =
+     let '(ret, out', rhl', r') := ref_fetch (hdr_nbytes (mem s) (rcur s)) (hdr_nbytes (mem s) 0) out (r_hdr s) (rcur s) (wcur s) in
+     (set_r s r' rhl', if ret =? 0 then None else Some (CL * (ret - 1) + HDR, out'))).
+Proof. exact (conj gen_fetch_ref model_fetch_ref). Qed.
+Print Assumptions gen_r_fetch_matches_model.
+
+Theorem gen_r_move_matches_model :
+  (forall hC rhl r, gen_r_move hC rhl r = ref_r_move (lget hC rhl) r) /\
+  (forall s, r_move s = set_r s (ref_r_move (hdr_ncl (mem s) (r_hdr s)) (rcur s)) (r_hdr s)).
+Proof. exact (conj gen_r_move_ref model_r_move_ref). Qed.
+Print Assumptions gen_r_move_matches_model.
